@@ -562,11 +562,170 @@ class CFG:
     def guard_atoms(self, target, entry=None, cut_back=False):
         """Normalised atomic facts known to hold whenever target executes."""
         facts = set()
+        consts = getattr(self, "module_consts", None)
         for n, label in self.guards(target, entry, cut_back):
             if n.kind == "test":
                 for a in atoms(n.ast, label == "T"):
                     facts.add(a)
+                try:
+                    ex = self.expand(n.ast, at=n, consts=consts)
+                    for a in atoms(ex, label == "T"):
+                        facts.add(a)
+                except RecursionError:
+                    pass
         return facts
+
+    # ---- light path sensitivity: None-ness of locals ----------------------------
+    def _null_vars(self):
+        if getattr(self, "_nv", None) is None:
+            assigned_none, tested = set(), set()
+            for n in self.nodes:
+                a = n.ast
+                if n.kind == "stmt" and isinstance(a, ast.Assign) and len(a.targets) == 1 and isinstance(a.targets[0], ast.Name):
+                    if isinstance(a.value, ast.Constant) and a.value.value is None:
+                        assigned_none.add(a.targets[0].id)
+                if n.kind == "test":
+                    for t, p in atoms(a, True):
+                        if t.endswith(" is None") and t[:-8].isidentifier():
+                            tested.add(t[:-8])
+            tracked = set(assigned_none)
+            changed = True
+            while changed:  # copies of tracked names are tracked too
+                changed = False
+                for n in self.nodes:
+                    a = n.ast
+                    if n.kind == "stmt" and isinstance(a, ast.Assign) and len(a.targets) == 1 and isinstance(a.targets[0], ast.Name) \
+                            and isinstance(a.value, ast.Name) and a.value.id in tracked and a.targets[0].id not in tracked:
+                        tracked.add(a.targets[0].id)
+                        changed = True
+            self._nv = tracked if tracked & tested else set()
+        return self._nv
+
+    def reach_ps(self, avoid=(), start=None, labels_skip=()):
+        """Nodes reachable from `start` (default entry) without entering `avoid`, on the
+        product of the CFG with the None-ness (N / X / ?) of the locals that are
+        assigned None somewhere and tested with `is None`: branches that contradict the
+        tracked None-ness are infeasible and pruned."""
+        vars_ = sorted(self._null_vars())
+        avoid = set(avoid)
+        start = start or self.entry
+        init = tuple("?" for _ in vars_)
+        seen = {(start, init)}
+        stack = [(start, init)]
+        out = {start}
+        while stack:
+            n, st = stack.pop()
+            st2 = st
+            a = n.ast
+            if vars_ and n.kind == "stmt" and isinstance(a, ast.Assign):
+                lst = list(st)
+                for t in a.targets:
+                    for nm in ast.walk(t):
+                        if isinstance(nm, ast.Name) and nm.id in vars_:
+                            i = vars_.index(nm.id)
+                            if t is nm:
+                                v = a.value
+                                if isinstance(v, ast.Constant) and v.value is None:
+                                    lst[i] = "N"
+                                elif isinstance(v, ast.Name) and v.id in vars_:
+                                    lst[i] = st[vars_.index(v.id)]
+                                elif isinstance(v, (ast.Tuple, ast.List, ast.Dict, ast.Constant, ast.JoinedStr)):
+                                    lst[i] = "X"
+                                else:
+                                    lst[i] = "?"
+                            else:
+                                lst[i] = "?"
+                st2 = tuple(lst)
+            for m, label in self.succ[n]:
+                if label in labels_skip or m in avoid:
+                    continue
+                st3 = st2
+                if vars_ and n.kind == "test" and label in ("T", "F"):
+                    feasible = True
+                    lst = list(st2)
+                    for t, p in atoms(a, label == "T"):
+                        if t.endswith(" is None") and t[:-8] in vars_:
+                            i = vars_.index(t[:-8])
+                            want = "N" if p else "X"
+                            if lst[i] != "?" and lst[i] != want:
+                                feasible = False
+                            lst[i] = want
+                    if not feasible:
+                        continue
+                    st3 = tuple(lst)
+                if (m, st3) not in seen:
+                    seen.add((m, st3))
+                    out.add(m)
+                    stack.append((m, st3))
+        return out
+
+    def dom_ps(self, a, b):
+        """a dominates b on all *feasible* paths (None-ness-sensitive)."""
+        if a is b:
+            return True
+        return b not in self.reach_ps(avoid=(a,))
+
+    # ---- local aliases ------------------------------------------------------------
+    def single_defs(self):
+        """local name -> (def node, value expr) for names bound exactly once by a plain
+        assignment in this function (not a loop target, not augmented)."""
+        if getattr(self, "_sd", None) is None:
+            count, val = {}, {}
+            for n in self.nodes:
+                a = n.ast
+                if a is None:
+                    continue
+                if n.kind == "for":
+                    for nm in ast.walk(a.target):
+                        if isinstance(nm, ast.Name):
+                            count[nm.id] = count.get(nm.id, 0) + 2
+                if n.kind == "stmt":
+                    if isinstance(a, ast.Assign):
+                        for t in a.targets:
+                            if isinstance(t, ast.Name):
+                                count[t.id] = count.get(t.id, 0) + 1
+                                val[t.id] = (n, a.value)
+                            else:
+                                for nm in ast.walk(t):
+                                    if isinstance(nm, ast.Name) and isinstance(nm.ctx, ast.Store):
+                                        count[nm.id] = count.get(nm.id, 0) + 2
+                    elif isinstance(a, (ast.AugAssign, ast.AnnAssign)):
+                        if isinstance(a.target, ast.Name):
+                            count[a.target.id] = count.get(a.target.id, 0) + (1 if isinstance(a, ast.AnnAssign) and a.value is not None else 2)
+                            if isinstance(a, ast.AnnAssign) and a.value is not None:
+                                val[a.target.id] = (n, a.value)
+            args = self.func.args
+            params = {p.arg for p in args.posonlyargs + args.args + args.kwonlyargs}
+            self._sd = {k: v for k, v in val.items() if count.get(k) == 1 and k not in params}
+        return self._sd
+
+    def expand(self, expr, at=None, consts=None, depth=3):
+        """Copy of expr with single-definition locals replaced by their defining
+        expression (only when no suspension point lies between definition and `at`),
+        and module-level literal constants (consts: name -> ast) substituted."""
+        import copy as _copy
+        sd = self.single_defs()
+        cfg = self
+
+        class T(ast.NodeTransformer):
+            def visit_Name(self, node):
+                if not isinstance(node.ctx, ast.Load):
+                    return node
+                if node.id in sd and depth > 0:
+                    d, v = sd[node.id]
+                    if any(isinstance(x, (ast.Await, ast.Yield)) for x in ast.walk(v)):
+                        return node
+                    if at is not None and d is not at:
+                        if not cfg.dom(d, at):
+                            return node
+                        if any(m.suspends for m in cfg.between(d, at)):
+                            return node
+                    return cfg.expand(v, at=at, consts=consts, depth=depth - 1)
+                if consts and node.id in consts and isinstance(consts[node.id], (ast.Tuple, ast.List, ast.Constant)):
+                    return _copy.deepcopy(consts[node.id])
+                return node
+
+        return T().visit(_copy.deepcopy(expr))
 
     def loop_of(self, node):
         """Innermost loop head whose natural loop contains node (None if not in a loop)."""
@@ -690,4 +849,6 @@ def cfg_of(fi) -> CFG:
             _cache[k] = CFG(fi.node)
         except RecursionError:
             raise AnalysisError(f"CFG construction recursion in {fi.qual}")
+        _cache[k].module_consts = getattr(fi.mod, "consts", None)
+        _cache[k].fi = fi
     return _cache[k]
